@@ -163,7 +163,15 @@ def body_factory(ctx):
         libfile = os.path.join(ctx.workdir, "c10lib.hdf5")
         lib.write(libfile, overwrite=True)
         import schwimmbad
-        A = run_history(case, schwimmbad.SerialPool(), 1234, prior, data, lib, libfile)
+        from vt.recgen import RecordingPool, overlapping_streams
+        rpool = RecordingPool(size=1)      # in-process, in task order (like SerialPool); remembers the generators handed out
+        A = run_history(case, rpool, 1234, prior, data, lib, libfile)
+        hits = overlapping_streams([d for _, d in rpool.child_state_dicts])
+        if hits:
+            i_, j_, pos_ = hits[0]
+            raise Violation("the random streams handed to two tasks overlap: task %d (call %d) starts %d draws into the stream of "
+                            "task %d (call %d) - successive calls / batches do not get independent streams"
+                            % (j_, rpool.child_state_dicts[j_][0], pos_, i_, rpool.child_state_dicts[i_][0]), n_tasks=len(rpool.child_state_dicts))
         if case["multipool"]:
             from schwimmbad import MultiPool
             with MultiPool(2) as mp:
